@@ -685,11 +685,13 @@ def extra_stats(cases, impl):
         prev_o = {}
         hit = False
         tag = c.get('tags', {})
+        flap_on = False     # with enable_flapping off the detector still runs, IsFlapping() is false
         for l in c['lines']:
             w = l.split()
             if w[0] == 'now':
                 now = int(w[1]); continue
             if w[0] == 'ckf_new':
+                flap_on = _kv(l).get('flap') == '1'
                 continue
             a = _kv(l)
             if w[0] == 'dt_add':
@@ -729,7 +731,7 @@ def extra_stats(cases, impl):
                 flap_withheld += 1
             # flapping toggling on the very result that is a hard change (measured on the implementation's trace)
             fl = ov.get('fl', '0')
-            if w[0] == 'crf' and fl != prev_fl:
+            if w[0] == 'crf' and fl != prev_fl and flap_on:
                 sent = 32 in nrs or 64 in nrs
                 stashed_now = bool((supp & 96) & ~(prev_supp & 96))
                 went_hard = ov.get('ty') == '1' and (prev_o.get('ty') == '0' or prev_o.get('st') != ov.get('st'))
